@@ -46,9 +46,9 @@ def run(chk):
         chk.report("transforms:" + k, "transform program step rejected by the reference interpreter Transforms!Run: %s" % json.dumps(show)[:1500], {"event.json": e})
     chk.cov.update({"states": r["states"], "transitions": r["states"], "traces_validated_against_impl": r["events"], "evaluations": r["events"],
                     "distinct_nontrivial": r["cases"],
-                    "rule": "programs built from YAML by the real loader code: every pair of slice bounds in {none,-4..4} x value lengths 0-5; extractHead/Tail for 3 left x 4 wildcard x 3 right boundaries x search ranges 1,2,3,6 on every text up to length %d over 5 symbols; truncate maxLen 1-8 x 2/3/4-byte and invalid characters at every cut position, also on configuration-owned and shared values; sampled drop at %s rates x %d records; every match operator x boundary values; unescape on every escape string; if/switch/block; %d seeded programs nested to depth 3 x %d boundary-biased records each" % (5 if chk.tier == "thorough" else 4, "all 100" if chk.tier == "thorough" else "13", 400 if chk.tier == "thorough" else 300, 40000 if chk.tier == "thorough" else 300, 100 if chk.tier == "thorough" else 30),
+                    "rule": "programs built from YAML by the real loader code: every pair of slice bounds in {none,-4..4} x value lengths 0-5; extractHead/Tail for 3 left x 4 wildcard x 3 right boundaries x search ranges 1,2,3,6 on every text up to length %d over 5 symbols; truncate maxLen 1-8 x 2/3/4-byte and invalid characters at every cut position, also on configuration-owned and shared values; sampled drop at %s rates x %d records; every match operator x boundary values; unescape on every escape string; if/switch/block; replace / extract / !!regex / !!glob from a fixed pattern menu on 30 ASCII values; %d seeded programs nested to depth 3 x %d boundary-biased records each" % (5 if chk.tier == "thorough" else 4, "all 100" if chk.tier == "thorough" else "13", 400 if chk.tier == "thorough" else 300, 40000 if chk.tier == "thorough" else 300, 100 if chk.tier == "thorough" else 30),
                     "samples": [json.loads(l) for l in open(r["first_trace"]).read().splitlines()[1:3]]})
-    chk.assumptions += ["Go regexp / glob based steps (replace, extract, !!regex, !!glob) are not re-specified and not exercised",
+    chk.assumptions += ["Go regexp and gobwas/glob are not re-specified: replace, extract, !!regex and !!glob are exercised with a fixed menu of eight patterns whose meaning Transforms.tla writes out, on ASCII values",
                         "configuration-side strings are printable ASCII (plus UTF-8 text); record values are arbitrary bytes; addFields with several interdependent pairs (Go map order) is not generated"]
 
 
